@@ -26,8 +26,17 @@ type MutantResult struct {
 var MutantKnownPath string
 
 func RunMutants(s *Spec, repo string, load LoadFn, only string) []MutantResult {
+	return runMutantList(s, s.Mutants, repo, load, only)
+}
+
+// RunGaps runs the not-yet-closed reported gaps of s.
+func RunGaps(s *Spec, repo string, load LoadFn, only string) []MutantResult {
+	return runMutantList(s, s.Gaps, repo, load, only)
+}
+
+func runMutantList(s *Spec, list []Mutant, repo string, load LoadFn, only string) []MutantResult {
 	var sel []Mutant
-	for _, m := range s.Mutants {
+	for _, m := range list {
 		if only == "" || strings.Contains(m.Name, only) {
 			sel = append(sel, m)
 		}
